@@ -29,29 +29,68 @@ def _divs(rng):
     return out
 
 
-def setindex_layer(run, rt, quick):
+def function_layer(run, quick):
+    """set_partitions_pre (ascending and descending) vs sp_part / sp_part_desc."""
     import pandas as pd
     from dask_expr._shuffle import _SetPartitionsPreSetIndex
     sx, m = common.sx, common.Model()
     rng = run.rng
     op = _SetPartitionsPreSetIndex.operation
-    # (a) function level
     cases = []
     for _ in range(150 if quick else 4000):
         d = _divs(rng)
         keys = [rng.randint(d[0] - 2, d[-1] + 2) for _ in range(rng.randint(1, 8))] + [d[0], d[-1], rng.choice(d)]
-        cases.append((d, keys))
-    ans = m.batch(["(sp_model %s %s)" % (sx(d), sx(k)) for d, k in cases])
+        cases.append((d, keys, rng.random() < 0.6))
+    ans = m.batch(["(%s %s %s)" % ("sp_model" if asc else "sp_model_desc", sx(d), sx(k)) for d, k, asc in cases])
     bad = 0
-    for (d, keys), a in zip(cases, ans):
+    for (d, keys, asc), a in zip(cases, ans):
         inside = all(d[0] <= k <= d[-1] for k in keys)
-        run.count(("sp_part", len(d), inside), nontrivial=len(set(d)) < len(d) or not inside)
+        run.count(("sp_part", len(d), inside, asc), nontrivial=len(set(d)) < len(d) or not inside)
         model = [int(v) for v in common.parse_sx(a)[0]]
-        r = try_(lambda: [int(v) for v in op(pd.Series(keys, dtype="int64"), pd.Series(d, dtype="int64"))])
+        r = try_(lambda: [int(v) for v in op(pd.Series(keys, dtype="int64"), pd.Series(d, dtype="int64"), ascending=asc)])
         if r[0] != "ok" or r[1] != model:
             bad += 1
-            run.broken_tie("T-LAYER set_partitions_pre", {"divisions": d, "keys": keys, "model": model, "real": repr(r)[:300]})
+            run.broken_tie("T-LAYER set_partitions_pre", {"divisions": d, "keys": keys, "ascending": asc, "model": model, "real": repr(r)[:300]})
     run.section("setindex_layer_function", cases=len(cases), differing=bad)
+
+
+def sort_order_layer(run, rt, quick):
+    """sort_values(col, ascending=..., npartitions=..., upsample=...) on unsorted multi-partition frames: every key of an
+    earlier output partition is <= (>=) every key of a later one, each partition is sorted, no row is lost or duplicated
+    (C10_sort_any_divisions_ordered / C10_sort_desc_any_divisions_ordered speak about the routing that achieves this)."""
+    rng = run.rng
+    n = 0
+    for _ in range(20 if quick else 500):
+        chunks = [[rng.randint(0, 12) for _ in range(rng.randint(1, 6))] for _ in range(rng.choice([2, 3, 4]))]
+        asc = rng.random() < 0.5
+        kw = {"ascending": asc}
+        if rng.random() < 0.5:
+            kw["npartitions"] = rng.choice([1, 2, 3, 5])
+        if rng.random() < 0.3:
+            kw["upsample"] = rng.choice([1.0, 2.0, 5.0])
+        kw["shuffle_method"] = rng.choice(["tasks", "disk"])
+        piece = _KeyPiece(chunks)
+        df = rt.dx.from_map(piece, list(range(len(chunks))), meta=piece(0).iloc[:0])
+        n += 1
+        run.count(("sort_order", len(chunks), asc, tuple(sorted(kw))), nontrivial=True)
+        r = try_(lambda: [[int(v) for v in p.k] for p in exec_expr(df.sort_values("k", **kw).optimize(fuse=False).expr.lower_completely())])
+        case = {"kind": "sort-order", "chunks": chunks, "kwargs": kw}
+        if r[0] != "ok":
+            run.violation("sort_values('k', **%r) on key chunks %s raises %s" % (kw, chunks, str(r[1])[:200]), case)
+            continue
+        parts = [p for p in r[1] if p]
+        flat = [v for p in parts for v in p]
+        keys = sorted((k for c in chunks for k in c), reverse=not asc)
+        if flat != keys:
+            run.violation("sort_values('k', **%r) on key chunks %s returns partitions %s, not a globally sorted frame with the same rows" % (kw, chunks, r[1]), case)
+    run.section("sort_order_layer", cases=n)
+
+
+def setindex_layer(run, rt, quick):
+    import pandas as pd
+    sx, m = common.sx, common.Model()
+    rng = run.rng
+    function_layer(run, quick)
     # (b) the public path
     cases, bad = [], 0
     for _ in range(25 if quick else 600):
